@@ -90,6 +90,9 @@ static sqf::runtime::runtime::result execute_do(sqf::runtime::runtime& runtime, 
             // Readd return value of frame if it had one
             if (val.has_value())
             { context_active.push_value(val.value()); }
+#ifdef SQFVM_RUNTIME_VERIF
+            sqf::runtime::verif::observe(sqf::runtime::verif::obs::frame_done, runtime, val.has_value() ? 1 : 0);
+#endif
 
             // Restart loop-run
             continue;
@@ -243,6 +246,9 @@ static sqf::runtime::runtime::result execute_do(sqf::runtime::runtime& runtime, 
                 // Recover from exception
                 context_active.current_frame().recover_runtime_error(runtime);
                 runtime_error = false;
+#ifdef SQFVM_RUNTIME_VERIF
+                sqf::runtime::verif::observe(sqf::runtime::verif::obs::err_unwind, runtime, frames_to_pop);
+#endif
             }
             else
             { // No recover frame available, exit method
@@ -254,9 +260,15 @@ static sqf::runtime::runtime::result execute_do(sqf::runtime::runtime& runtime, 
 #endif // DF__SQF_RUNTIME__ASSEMBLY_DEBUG_ON_EXECUTE
                 runtime.__logmsg(logmessage::runtime::Stacktrace((*instruction)->diag_info(), stacktrace));
                 runtime_error = false;
+#ifdef SQFVM_RUNTIME_VERIF
+                sqf::runtime::verif::observe(sqf::runtime::verif::obs::err_fail, runtime, 0);
+#endif
                 return sqf::runtime::runtime::result::runtime_error;
             }
         }
+#ifdef SQFVM_RUNTIME_VERIF
+        sqf::runtime::verif::observe(sqf::runtime::verif::obs::instr_done, runtime, 0);
+#endif
     }
 }
 
@@ -269,10 +281,17 @@ sqf::runtime::runtime::result sqf::runtime::runtime::execute(sqf::runtime::runti
     case action::leave_scope:
         if (m_run_atomic.compare_exchange_weak(expected, true, std::memory_order::memory_order_seq_cst, std::memory_order::memory_order_seq_cst))
         {
+#ifdef SQFVM_RUNTIME_VERIF
+            sqf::runtime::verif::at_sync(sqf::runtime::verif::sync::exec_acquired, *this);
+#endif
             m_is_exit_requested = false;
             m_is_halt_requested = false;
             auto scopeNum = m_context_active->frames_size() - 1;
             m_state = state::running;
+#ifdef SQFVM_RUNTIME_VERIF
+            sqf::runtime::verif::at_sync(sqf::runtime::verif::sync::exec_running, *this);
+            sqf::runtime::verif::observe(sqf::runtime::verif::obs::run_begin, *this, 0);
+#endif
             while (!m_is_exit_requested && !m_is_halt_requested && !m_contexts.empty())
             {
                 res = execute_do(*this, 1);
@@ -302,11 +321,18 @@ sqf::runtime::runtime::result sqf::runtime::runtime::execute(sqf::runtime::runti
             default:
                 break;
             }
+#ifdef SQFVM_RUNTIME_VERIF
+            sqf::runtime::verif::at_sync(sqf::runtime::verif::sync::exec_before_final, *this);
+#endif
             if (m_is_exit_requested)
             {
                 m_contexts.clear();
                 m_state = state::empty;
             }
+#ifdef SQFVM_RUNTIME_VERIF
+            sqf::runtime::verif::observe(sqf::runtime::verif::obs::run_end, *this, static_cast<size_t>(static_cast<int>(res) + 2));
+            sqf::runtime::verif::at_sync(sqf::runtime::verif::sync::exec_before_release, *this);
+#endif
             m_run_atomic = false;
 #ifdef DF__SQF_RUNTIME__ASSEMBLY_DEBUG_ON_EXECUTE
             std::cout << "\x1B[33m[ASSEMBLY ASSERT]\033[0m" <<
@@ -323,14 +349,24 @@ sqf::runtime::runtime::result sqf::runtime::runtime::execute(sqf::runtime::runti
     case action::start:
         if (m_run_atomic.compare_exchange_weak(expected, true, std::memory_order::memory_order_seq_cst, std::memory_order::memory_order_seq_cst))
         {
+#ifdef SQFVM_RUNTIME_VERIF
+            sqf::runtime::verif::at_sync(sqf::runtime::verif::sync::exec_acquired, *this);
+#endif
             m_is_exit_requested = false;
             m_is_halt_requested = false;
             m_state = state::running;
+#ifdef SQFVM_RUNTIME_VERIF
+            sqf::runtime::verif::at_sync(sqf::runtime::verif::sync::exec_running, *this);
+            sqf::runtime::verif::observe(sqf::runtime::verif::obs::run_begin, *this, 0);
+#endif
             while (!m_contexts.empty())
             {
                 for (size_t i = 0; i < m_contexts.size(); i++)
                 {
                     m_context_active = m_contexts[i];
+#ifdef SQFVM_RUNTIME_VERIF
+                    sqf::runtime::verif::observe(sqf::runtime::verif::obs::slice_begin, *this, i);
+#endif
                     if (m_context_active->suspended())
                     {
 #ifdef SQFVM_RUNTIME_VERIF
@@ -359,6 +395,10 @@ sqf::runtime::runtime::result sqf::runtime::runtime::execute(sqf::runtime::runti
                         res = execute_do(*this, 150);
 #endif
                     }
+#ifdef SQFVM_RUNTIME_VERIF
+                    sqf::runtime::verif::observe(sqf::runtime::verif::obs::slice_end, *this, i);
+                    sqf::runtime::verif::at_sync(sqf::runtime::verif::sync::exec_loop_poll, *this);
+#endif
                     if (m_is_exit_requested)
                     {
                         m_contexts.clear();
@@ -382,6 +422,9 @@ sqf::runtime::runtime::result sqf::runtime::runtime::execute(sqf::runtime::runti
                             __logmsg(logmessage::runtime::ContextValuePrint(opt_val.value()));
                         }
                         m_contexts.erase(m_contexts.begin() + i);
+#ifdef SQFVM_RUNTIME_VERIF
+                        sqf::runtime::verif::observe(sqf::runtime::verif::obs::ctx_erase, *this, i);
+#endif
                         if (m_contexts.empty())
                         {
                             m_context_active = {};
@@ -412,12 +455,19 @@ sqf::runtime::runtime::result sqf::runtime::runtime::execute(sqf::runtime::runti
                 m_state = state::halted_error;
                 break;
             }
+#ifdef SQFVM_RUNTIME_VERIF
+            sqf::runtime::verif::at_sync(sqf::runtime::verif::sync::exec_before_final, *this);
+#endif
             if (m_is_exit_requested)
             {
                 m_contexts.clear();
                 m_context_active = {};
                 m_state = state::empty;
             }
+#ifdef SQFVM_RUNTIME_VERIF
+            sqf::runtime::verif::observe(sqf::runtime::verif::obs::run_end, *this, static_cast<size_t>(static_cast<int>(res) + 2));
+            sqf::runtime::verif::at_sync(sqf::runtime::verif::sync::exec_before_release, *this);
+#endif
             m_run_atomic = false;
 #ifdef DF__SQF_RUNTIME__ASSEMBLY_DEBUG_ON_EXECUTE
             std::cout << "\x1B[33m[ASSEMBLY ASSERT]\033[0m" <<
@@ -434,9 +484,16 @@ sqf::runtime::runtime::result sqf::runtime::runtime::execute(sqf::runtime::runti
     case action::assembly_step:
         if (m_run_atomic.compare_exchange_weak(expected, true, std::memory_order::memory_order_seq_cst, std::memory_order::memory_order_seq_cst))
         {
+#ifdef SQFVM_RUNTIME_VERIF
+            sqf::runtime::verif::at_sync(sqf::runtime::verif::sync::exec_acquired, *this);
+#endif
             m_is_exit_requested = false;
             m_is_halt_requested = false;
             m_state = state::running;
+#ifdef SQFVM_RUNTIME_VERIF
+            sqf::runtime::verif::at_sync(sqf::runtime::verif::sync::exec_running, *this);
+            sqf::runtime::verif::observe(sqf::runtime::verif::obs::run_begin, *this, 0);
+#endif
             res = execute_do(*this, 1);
             switch (res)
             {
@@ -452,12 +509,19 @@ sqf::runtime::runtime::result sqf::runtime::runtime::execute(sqf::runtime::runti
                 m_state = state::halted_error;
                 break;
             }
+#ifdef SQFVM_RUNTIME_VERIF
+            sqf::runtime::verif::at_sync(sqf::runtime::verif::sync::exec_before_final, *this);
+#endif
             if (m_is_exit_requested)
             {
                 m_contexts.clear();
                 m_context_active = {};
                 m_state = state::empty;
             }
+#ifdef SQFVM_RUNTIME_VERIF
+            sqf::runtime::verif::observe(sqf::runtime::verif::obs::run_end, *this, static_cast<size_t>(static_cast<int>(res) + 2));
+            sqf::runtime::verif::at_sync(sqf::runtime::verif::sync::exec_before_release, *this);
+#endif
             m_run_atomic = false;
 #ifdef DF__SQF_RUNTIME__ASSEMBLY_DEBUG_ON_EXECUTE
             std::cout << "\x1B[33m[ASSEMBLY ASSERT]\033[0m" <<
@@ -474,10 +538,17 @@ sqf::runtime::runtime::result sqf::runtime::runtime::execute(sqf::runtime::runti
     case action::line_step:
         if (m_run_atomic.compare_exchange_weak(expected, true, std::memory_order::memory_order_seq_cst, std::memory_order::memory_order_seq_cst))
         {
+#ifdef SQFVM_RUNTIME_VERIF
+            sqf::runtime::verif::at_sync(sqf::runtime::verif::sync::exec_acquired, *this);
+#endif
             m_is_exit_requested = false;
             m_is_halt_requested = false;
             bool success;
             m_state = state::running;
+#ifdef SQFVM_RUNTIME_VERIF
+            sqf::runtime::verif::at_sync(sqf::runtime::verif::sync::exec_running, *this);
+            sqf::runtime::verif::observe(sqf::runtime::verif::obs::run_begin, *this, 0);
+#endif
             std::optional<diagnostics::diag_info> dinf;
             while (!m_is_exit_requested && !m_is_halt_requested && !m_contexts.empty())
             {
@@ -519,12 +590,19 @@ sqf::runtime::runtime::result sqf::runtime::runtime::execute(sqf::runtime::runti
                 m_state = state::halted_error;
                 break;
             }
+#ifdef SQFVM_RUNTIME_VERIF
+            sqf::runtime::verif::at_sync(sqf::runtime::verif::sync::exec_before_final, *this);
+#endif
             if (m_is_exit_requested)
             {
                 m_contexts.clear();
                 m_context_active = {};
                 m_state = state::empty;
             }
+#ifdef SQFVM_RUNTIME_VERIF
+            sqf::runtime::verif::observe(sqf::runtime::verif::obs::run_end, *this, static_cast<size_t>(static_cast<int>(res) + 2));
+            sqf::runtime::verif::at_sync(sqf::runtime::verif::sync::exec_before_release, *this);
+#endif
             m_run_atomic = false;
 #ifdef DF__SQF_RUNTIME__ASSEMBLY_DEBUG_ON_EXECUTE
             std::cout << "\x1B[33m[ASSEMBLY ASSERT]\033[0m" <<
@@ -551,8 +629,14 @@ sqf::runtime::runtime::result sqf::runtime::runtime::execute(sqf::runtime::runti
         }
         else
         {
+#ifdef SQFVM_RUNTIME_VERIF
+            sqf::runtime::verif::at_sync(sqf::runtime::verif::sync::ctl_stop_checked, *this);
+#endif
             m_is_exit_requested = true;
             res = result::ok;
+#ifdef SQFVM_RUNTIME_VERIF
+            sqf::runtime::verif::at_sync(sqf::runtime::verif::sync::ctl_done, *this);
+#endif
         }
         break;
     case action::abort:
@@ -564,8 +648,14 @@ sqf::runtime::runtime::result sqf::runtime::runtime::execute(sqf::runtime::runti
             }
             else
             {
+#ifdef SQFVM_RUNTIME_VERIF
+                sqf::runtime::verif::at_sync(sqf::runtime::verif::sync::ctl_stop_checked, *this);
+#endif
                 m_is_exit_requested = true;
                 res = result::ok;
+#ifdef SQFVM_RUNTIME_VERIF
+                sqf::runtime::verif::at_sync(sqf::runtime::verif::sync::ctl_done, *this);
+#endif
             }
         }
         else if (m_state == state::halted_error || m_state == state::halted)
